@@ -142,7 +142,7 @@ class _UnionIter:
                 "same-offset-base-plus-tag": FORALL_INT(
                     lambda j: SETEQ(D(y.item(j, ObjOf(FIELD), ObjOf(BLS))[1]), want), lo=0, hi=LEN(fs) - 1, name="j"),
             }
-        ys = s.result_list
+        ys = YIELDS(s.result)
         return {"every-variant-once-in-order": len(ys) == len(fs) and all(a is f for (a, _), f in zip(ys, fs)),
                 "same-offset-base-plus-tag": all(NSET(o) == want for _, o in ys)}
 
@@ -187,7 +187,7 @@ class _StructIter:
                 "consistent-with-C02": IMPLIES(SETEQ(base_of(s), singleton(0)),
                                                lambda: SETEQ(padset(PRE(ts, b0, n), A(s.self)), L(s.self))),
             }
-        ys = s.result_list
+        ys = YIELDS(s.result)
         ts = [f.data_type for f in fs]
         b0 = frozenset(st.native_pad(8, x) for x in base_of(s))
         return {"every-field-once-in-order": len(ys) == len(fs) and all(a is f for (a, _), f in zip(ys, fs)),
@@ -248,7 +248,7 @@ class _ArrayEnum:
                 "offsets-are-start-positions": FORALL_INT(
                     lambda j: SETEQ(D(item(j)[1]), ELEMENT_OFFSET(s.self, base_of(s), j)), lo=0, hi=c - 1, name="j"),
             }
-        ys = s.result_list
+        ys = YIELDS(s.result)
         return {"every-index-once-in-order": [i for i, _ in ys] == list(range(s.self.capacity)),
                 "offsets-are-start-positions": all(NSET(o) == ELEMENT_OFFSET(s.self, base_of(s), i) for i, o in ys)}
 
@@ -306,6 +306,439 @@ class _DelimIter:
             }
         inner = s.self.inner_type
         want = list(inner.iterate_fields_with_offsets(__import__("pydsdl").BitLengthSet({x + 32 for x in base_of(s)})))
-        ys = s.result_list
+        ys = YIELDS(s.result)
         return {"inner-iteration-after-header": len(ys) == len(want) and all(
             a is b and NSET(o) == NSET(p) for (a, o), (b, p) in zip(ys, want))}
+
+
+# ------------------------------------------------------------------------------------------------ intrinsics
+from .common import ANY, RATIONAL_X, STRING_X, SET_X, CONSTANT
+
+SCHEMA_BUILDER = "pydsdl._data_schema_builder.DataSchemaBuilder"
+TYPE_BUILDER = "pydsdl._data_type_builder.DataTypeBuilder"
+SERVICE_NAME = "ServiceType"
+
+
+@class_spec(SCHEMA_BUILDER)
+class _SchemaBuilderSpec:
+    fields = dict(_fields=SeqOf(ObjOf(FIELD)), _constants=SeqOf(ObjOf(CONSTANT)), _is_union=Bool,
+                  _bit_length_computed_at_least_once=Bool, _doc=Str)
+    mutable = ["_fields", "_constants", "_is_union", "_bit_length_computed_at_least_once", "_doc"]
+
+
+@class_spec(TYPE_BUILDER)
+class _TypeBuilderSpec:
+    fields = dict(_structs=SeqOf(ObjOf(SCHEMA_BUILDER)))
+
+
+def INTS(setobj):
+    """the integers whose Rational is an element of a DSDL expression Set"""
+    if smt():
+        return SymSet(speclib.CTX.engine.uf("ghost!set-ints", RefSort, st.S)(setobj.ref))
+    out = set()
+    for x in setobj:
+        v = x.native_value
+        if v.denominator != 1:
+            return None
+        out.add(int(v))
+    return frozenset(out)
+
+
+@contract(SET_X + ".__init__", props=P)
+class _SetInit:
+    """Assumed, for the one shape the intrinsics use - `Set(map(Rational, <bit length set>))`: the new Set holds exactly the
+    Rationals of the integers of the (non-empty) source."""
+    verify = False
+    assumed = ("_expression.Set.__init__ applied to map(Rational, bls): a homogeneous non-empty set of Rationals, one per "
+               "element of the source (frozenset of the mapped elements)")
+
+    @staticmethod
+    def _source(s):
+        from pyvc.values import MappedIter, ClassVal
+
+        e = s.elements
+        if isinstance(e, MappedIter) and isinstance(e.fn, ClassVal) and e.fn.cls.name == "Rational" and isinstance(e.it, Obj):
+            return e.it
+        raise speclib.V.EngineLimit("Set(...) of a shape other than Set(map(Rational, <BitLengthSet>))")
+
+    def pre(s):
+        return {"source-non-empty": WFSET(D(_SetInit._source(s)))}
+
+    def post(s):
+        return {"rationals-of-the-source": SETEQ(INTS(s.self), D(_SetInit._source(s)))}
+
+
+def field_types_of(builder):
+    from pyvc.speclib import MAPSEQ
+
+    if smt():
+        return MAPSEQ(builder._fields, lambda f: f._data_type)
+    return [f.data_type for f in builder._fields]
+
+
+def OFFSET_INTRINSIC(builder):
+    """Statement: in a structure, the lengths of everything before this point (before any padding for the next field) -
+    PRE_n of the fields committed so far with base {0}, i.e. SFold; in a union: tag + union of the variants."""
+    ts = field_types_of(builder)
+    if smt():
+        n = LEN(ts)
+        union_case = ITE_SET(n >= 2, sumset(singleton(TAG_WIDTH(n)), UNIONS_L(ts)),
+                             ITE_SET(n == 1, L(AT(ts, 0)), singleton(0)))
+        return ITE_SET(builder._is_union, union_case, SFOLD(ts))
+    if builder._is_union:
+        n = len(ts)
+        if n >= 2:
+            return frozenset(TAG_WIDTH(n) + x for x in UNIONS_L(ts))
+        return _native_L(ts[0]) if n == 1 else frozenset([0])
+    return frozenset(SFOLD(ts))
+
+
+def ITE_SET(c, a, b):
+    if isinstance(c, bool):
+        return a if c else b
+    return SymSet(z3.If(c, st._t(a), st._t(b)))
+
+
+def _types_serializable(builder):
+    return FORALL_IDX(builder._fields, lambda i, f: NOT(ISINST(f._data_type, SERVICE_NAME)))
+
+
+@contract(SCHEMA_BUILDER + ".offset", props=P)
+class _Offset:
+    returns = ObjOf(BLS)
+    modifies = ["_bit_length_computed_at_least_once"]
+
+    def pre(s):
+        # domain: field types that have a layout (a service type as a field type is rejected when the composite is built)
+        return {"field-types-serializable": _types_serializable(s.self)}
+
+    def post(s):
+        return {"lengths-of-everything-before": SETEQ(D(s.result), OFFSET_INTRINSIC(s.self)) if smt() else
+                NSET(s.result) == OFFSET_INTRINSIC(s.self),
+                "marks-analysis-done": s.self._bit_length_computed_at_least_once if smt() else True}
+
+
+def _named(c, name):
+    return EQ(c._name, name) if smt() else c.name == name
+
+
+def no_constant_named(constants, name, hi=None):
+    return FORALL_IDX(constants, lambda i, c: NOT(_named(c, name)), hi=hi)
+
+
+def first_constant_value(result, constants, name):
+    """result is the value of the first constant with that name"""
+    from pyvc.speclib import EXISTS_IDX
+
+    if smt():
+        return EXISTS_IDX(constants, lambda i, c: AND(_named(c, name), result.ref == c._value.ref,
+                                                      no_constant_named(constants, name, hi=i)))
+    for c in constants:
+        if c.name == name:
+            return result is c.value
+    return False
+
+
+@contract(TYPE_BUILDER + ".resolve_top_level_identifier", props=P)
+class _ResolveTop:
+    params = dict(name=Str)
+    returns = ObjOf(ANY)
+
+    @staticmethod
+    def _cur(s):
+        st_ = s.self._structs
+        return AT(st_, LEN(st_) - 1) if smt() else st_[-1]
+
+    def pre(s):
+        cur = _ResolveTop._cur(s)
+        return {"inside-a-definition": LEN(s.self._structs) >= 1,
+                "field-types-serializable": _types_serializable(cur) if smt() else True}
+
+    raises = {"UndefinedIdentifierError": lambda s: AND(
+        no_constant_named(_ResolveTop._cur(s)._constants, s.name), NOT(EQ(s.name, "_offset_")))}
+
+    def post(s):
+        cur = _ResolveTop._cur(s)
+        cs = cur._constants
+        none = no_constant_named(cs, s.name)
+        is_offset = AND(none, EQ(s.name, "_offset_"))
+        return {
+            "constants-shadow": IMPLIES(NOT(none), lambda: first_constant_value(s.result, cs, s.name)),
+            "offset-intrinsic": IMPLIES(is_offset, lambda: AND(
+                ISINST(s.result, "pydsdl._expression._container.Set"),
+                SETEQ(INTS(s.result), OFFSET_INTRINSIC(cur)) if smt() else INTS(s.result) == OFFSET_INTRINSIC(cur))),
+        }
+
+
+@loop_invariant(TYPE_BUILDER + ".resolve_top_level_identifier", loop=0)
+def _inv_resolve_top(s):
+    return {"no-earlier-constant": FORALL_IDX(s.seq, lambda i, c: NOT(EQ(c._name, s.name)), hi=s.i)}
+
+
+@contract(SERIALIZABLE + "._attribute", props=P)
+class _SerAttr:
+    params = dict(name=ObjOf(STRING_X))
+    returns = ObjOf(ANY)
+
+    raises = {"UndefinedAttributeError": lambda s: OR(NOT(EQ(s.name._value, "_bit_length_")), ISINST(s.self, SERVICE_NAME))}
+
+    def pre(s):
+        return {"typing": TYPED(s.self) if smt() and s.self.fields is None else True}
+
+    def post(s):
+        return {"bit-length-intrinsic": AND(
+            ISINST(s.result, "pydsdl._expression._container.Set"),
+            SETEQ(INTS(s.result), L(s.self)) if smt() else INTS(s.result) == frozenset(_native_L(s.self)))}
+
+
+@contract(COMPOSITE + "._attribute", props=P)
+class _CompAttr:
+    params = dict(name=ObjOf(STRING_X))
+    returns = ObjOf(ANY)
+    self_classes = ["StructureType", "UnionType", "DelimitedType", "ServiceType"]
+
+    @staticmethod
+    def _consts(s):
+        from pyvc.speclib import FILTER
+
+        return FILTER(s.self._attributes, lambda a: ISINST(a, "Constant")) if smt() else s.self.constants
+
+    raises = {"UndefinedAttributeError": lambda s: AND(
+        no_constant_named(_CompAttr._consts(s), s.name._value),
+        OR(ISINST(s.self, SERVICE_NAME), NOT(OR(EQ(s.name._value, "_extent_"), EQ(s.name._value, "_bit_length_")))))}
+
+    def post(s):
+        cs = _CompAttr._consts(s)
+        nm = s.name._value
+        none = no_constant_named(cs, nm)
+        return {
+            "constants-first": IMPLIES(NOT(none), lambda: first_constant_value(s.result, cs, nm)),
+            "extent-intrinsic": IMPLIES(AND(none, EQ(nm, "_extent_")), lambda: AND(
+                ISINST(s.result, "pydsdl._expression._primitive.Rational"),
+                RATIONAL_IS(s.result, EXTENT(s.self)))),
+            "bit-length-intrinsic": IMPLIES(AND(none, EQ(nm, "_bit_length_")), lambda: AND(
+                ISINST(s.result, "pydsdl._expression._container.Set"),
+                SETEQ(INTS(s.result), L(s.self)) if smt() else INTS(s.result) == frozenset(_native_L(s.self)))),
+        }
+
+
+def RATIONAL_IS(r, n):
+    if smt():
+        from pyvc.values import FractionV, Real
+
+        v = AS(r, RATIONAL_X)._value
+        t = v.term if isinstance(v, FractionV) else v
+        return t == Real.unwrap(st._i(n))
+    return r.native_value == n
+
+
+@loop_invariant(COMPOSITE + "._attribute", loop=0)
+def _inv_comp_attr(s):
+    return {"no-earlier-constant": FORALL_IDX(s.seq, lambda i, c: NOT(EQ(c._name, s.name._value)), hi=s.i)}
+
+
+# len() of a bit length set that denotes a non-empty set is positive (needed by the in-code assertion of
+# DataSchemaBuilder.offset): clause added to the C01 contract of BitLengthSet.__len__, whose body is re-verified here
+def _extend_len():
+    c = REG.contracts[BLS + ".__len__"]
+    old = c.post
+
+    def post(s, _old=old):
+        out = dict(_old(s))
+        out["c08-positive-when-non-empty"] = IMPLIES(WFSET(D(s.self)), s.result >= 1) if smt() else (len(s.self) >= 1)
+        return out
+
+    c.post = post
+    if "C08" not in c.props:
+        c.props.append("C08")
+
+
+_extend_len()
+
+
+# The aggregate_bit_length_sets contracts of specs/c02.py carry "C08" (they are what `_offset_` rests on); they are verified
+# under C02 and only *used* here (their bodies are not re-verified by the C08 run)
+for _q in (STRUCT + ".aggregate_bit_length_sets", UNION + ".aggregate_bit_length_sets"):
+    if "C08" in REG.contracts[_q].props:
+        REG.contracts[_q].props.remove("C08")
+
+
+# CompositeType.extent on a ServiceType goes through `bit_length_set`, which raises TypeError (service types have no
+# layout): the C02 contract of `extent` does not say so; added here for the call site in CompositeType._attribute
+_ext = REG.contracts[COMPOSITE + ".extent"]
+if "TypeError" not in _ext.raises:
+    _ext.raises["TypeError"] = lambda s: ISINST(s.self, SERVICE_NAME)
+
+
+# ------------------------------------------------------------------------------------------------ native harness
+from pyvc.native import NativeSuite
+
+NATIVE = NativeSuite()
+NATIVE_BUDGET = {"quick": 80, "thorough": 1500}
+
+
+def _g_prim(rng):
+    k = rng.choice(["u", "u", "i", "f", "b"])
+    if k == "u":
+        return ["u", rng.choice([1, 3, 7, 8, 13, 16, 64])]
+    if k == "i":
+        return ["i", rng.choice([2, 8, 9, 32])]
+    if k == "f":
+        return ["f", rng.choice([16, 32, 64])]
+    return ["b"]
+
+
+def _g_type(rng, depth):
+    if depth <= 0:
+        return _g_prim(rng)
+    k = rng.choice(["prim", "prim", "fix", "var", "struct", "union", "delim"])
+    if k == "prim":
+        return _g_prim(rng)
+    if k in ("fix", "var"):
+        return [k, _g_type(rng, depth - 1), rng.choice([1, 2, 3, 5])]
+    if k == "delim":
+        return ["delim", _g_composite(rng, depth - 1, "struct"), rng.choice([0, 8, 16])]
+    return _g_composite(rng, depth - 1, k)
+
+
+def _g_composite(rng, depth, kind):
+    n = rng.choice([0, 1, 2, 3]) if kind == "struct" else rng.choice([2, 3])
+    fields = []
+    for j in range(n):
+        if kind == "struct" and rng.random() < 0.2:
+            fields.append(["void", rng.choice([1, 3, 8])])
+        else:
+            fields.append(_g_type(rng, depth))
+    return [kind, fields]
+
+
+def _mk(d, counter=[0]):
+    from pathlib import Path
+    from pydsdl import _serializable as S
+
+    T = S.PrimitiveType.CastMode.TRUNCATED
+    k = d[0]
+    if k == "u":
+        return S.UnsignedIntegerType(d[1], T)
+    if k == "i":
+        return S.SignedIntegerType(d[1], S.PrimitiveType.CastMode.SATURATED)
+    if k == "f":
+        return S.FloatType(d[1], T)
+    if k == "b":
+        return S.BooleanType()
+    if k == "void":
+        return S.VoidType(d[1])
+    if k == "fix":
+        return S.FixedLengthArrayType(_mk(d[1]), d[2])
+    if k == "var":
+        return S.VariableLengthArrayType(_mk(d[1]), d[2])
+    if k == "delim":
+        inner = _mk(d[1])
+        return S.DelimitedType(inner, inner.extent + d[2])
+    counter[0] += 1
+    cls = S.StructureType if k == "struct" else S.UnionType
+    attrs = []
+    for j, fd in enumerate(d[1]):
+        t = _mk(fd)
+        attrs.append(S.PaddingField(t) if fd[0] == "void" else S.Field(t, "f%d" % j))
+    return cls(name="ns.T%d" % counter[0], version=S.Version(1, 0), attributes=attrs, deprecated=False, fixed_port_id=None,
+               source_file_path=Path("ns/T%d.1.0.dsdl" % counter[0]), has_parent_service=False)
+
+
+_BASES = [[0], [8], [1], [3, 8], [0, 4, 8, 12], [5], [16, 24], [7, 9]]
+
+
+def _gen_iter(kind):
+    def gen(rng, i):
+        d = _g_composite(rng, 2, kind) if kind in ("struct", "union") else (
+            ["delim", _g_composite(rng, 1, rng.choice(["struct", "union"])), rng.choice([0, 8, 24])] if kind == "delim"
+            else ["fix", _g_type(rng, 1), rng.choice([1, 2, 3, 4])])
+        return {"type": d, "base": rng.choice(_BASES)}
+    return gen
+
+
+def _build_iter(desc):
+    from pydsdl import BitLengthSet
+
+    t = _mk(desc["type"])
+    b = BitLengthSet(desc["base"])
+    if desc["type"][0] == "fix":
+        return (lambda: list(t.enumerate_elements_with_offsets(b))), {"self": t, "base_offset": b}
+    return (lambda: list(t.iterate_fields_with_offsets(b))), {"self": t, "base_offset": b}
+
+
+NATIVE.add(STRUCT + ".iterate_fields_with_offsets", _gen_iter("struct"), _build_iter)
+NATIVE.add(UNION + ".iterate_fields_with_offsets", _gen_iter("union"), _build_iter)
+NATIVE.add(DELIMITED + ".iterate_fields_with_offsets", _gen_iter("delim"), _build_iter)
+NATIVE.add(FIXED + ".enumerate_elements_with_offsets", _gen_iter("fix"), _build_iter)
+
+
+def _gen_builder(rng, i):
+    n = rng.choice([0, 1, 2, 3])
+    return {"union": rng.random() < 0.4, "fields": [(["void", rng.choice([1, 8])] if rng.random() < 0.15 else _g_type(rng, 1))
+                                                    for _ in range(n)],
+            "consts": rng.sample(["A", "B", "_offset_"], rng.choice([0, 1, 1, 2])),
+            "name": rng.choice(["A", "B", "_offset_", "_offset_", "nope"])}
+
+
+def _schema_builder(desc):
+    from pydsdl import _serializable as S, _expression as X
+    from pydsdl._data_schema_builder import DataSchemaBuilder
+
+    b = DataSchemaBuilder()
+    if desc["union"]:
+        b.make_union()
+    for j, fd in enumerate(desc["fields"]):
+        t = _mk(fd)
+        if fd[0] == "void" and desc["union"]:
+            continue
+        b.add_field(S.PaddingField(t) if fd[0] == "void" else S.Field(t, "f%d" % j))
+    u8 = S.UnsignedIntegerType(8, S.PrimitiveType.CastMode.TRUNCATED)
+    for k, cn in enumerate(desc["consts"]):
+        if cn != "_offset_":
+            b.add_constant(S.Constant(u8, cn, X.Rational(k)))
+    return b
+
+
+def _build_offset(desc):
+    b = _schema_builder(desc)
+    return (lambda: b.offset), {"self": b}
+
+
+def _build_resolve_top(desc):
+    from pydsdl._data_type_builder import DataTypeBuilder
+    from .c09 import _stub_classes
+
+    StubDefinition, _ = _stub_classes()
+    tb = DataTypeBuilder(StubDefinition("ns.Own", (1, 0)), [], [], lambda line, text: None, True)
+    tb._structs[-1] = _schema_builder(desc)
+    return (lambda: tb.resolve_top_level_identifier(desc["name"])), {"self": tb, "name": desc["name"]}
+
+
+NATIVE.add(SCHEMA_BUILDER + ".offset", _gen_builder, _build_offset)
+NATIVE.add(TYPE_BUILDER + ".resolve_top_level_identifier", _gen_builder, _build_resolve_top)
+
+
+def _gen_attr(rng, i):
+    return {"type": _g_type(rng, 2), "name": rng.choice(["_bit_length_", "_extent_", "_bit_length_", "x", "_offset_"])}
+
+
+def _build_attr(composite):
+    def build(desc):
+        from pydsdl import _expression as X
+        from pydsdl import _serializable as S
+
+        t = _mk(desc["type"])
+        if composite != isinstance(t, S.CompositeType):
+            return None
+        nm = X.String(desc["name"])
+        return (lambda: t._attribute(nm)), {"self": t, "name": nm}
+    return build
+
+
+NATIVE.add(SERIALIZABLE + "._attribute", _gen_attr, _build_attr(False))
+NATIVE.add(COMPOSITE + "._attribute", _gen_attr, _build_attr(True))
+
+NOT_COVERED = []
+EXPLANATION = ""
+ASSUMPTIONS = []
